@@ -72,7 +72,7 @@ pub fn model_run(case: &Arc<Case>) -> ModelOut {
     let (o2, c2) = (out.clone(), case.clone());
     let rec = Arc::new(StdMutex::new(SchedRecord::default()));
     let mut cfg = shuttle::Config::new();
-    cfg.stack_size = 1 << 19;
+    cfg.stack_size = if case.tag == "deep-chain" { 1 << 24 } else { 1 << 19 };
     cfg.failure_persistence = shuttle::FailurePersistence::None;
     cfg.silence_warnings = true;
     crate::simrt::ensure_hook();
